@@ -5,6 +5,7 @@ import (
 	stdjson "encoding/json"
 	"fmt"
 	"strings"
+	"sync"
 	"unicode/utf8"
 
 	"github.com/gabriel-vasile/mimetype"
@@ -253,6 +254,59 @@ func c08Run(c *fw.Ctx, b fw.Batch) {
 				}
 			}
 		}
+	case "concurrent":
+		// 16 goroutines detect different valid documents at the same time: each verdict must be the
+		// document's own (pooled parser state handed over too early shows as a lost verdict)
+		var docs [][]byte
+		for len(docs) < 64 {
+			o := gen.JSONOpts{MaxDepth: 1 + r.Intn(4), MaxItems: 1 + r.Intn(5), WS: r.Intn(3), Hostile: true, NoSvg: true}
+			d := gen.JSONDoc(r, o)
+			if len(d) > 30 && len(d) < 3000 && stdjson.Valid(d) {
+				docs = append(docs, d)
+			}
+		}
+		mimetype.SetLimit(0)
+		var wg sync.WaitGroup
+		bad := make(chan []byte, 64)
+		for g := 0; g < 16; g++ {
+			wg.Add(1)
+			go func(g int) {
+				defer wg.Done()
+				for i := 0; i < b.N; i++ {
+					d := docs[(g*7+i)%len(docs)]
+					if !inJSONFamily(lib.ChainOf(mimetype.Detect(d))) {
+						select {
+						case bad <- d:
+						default:
+						}
+						return
+					}
+				}
+			}(g)
+		}
+		wg.Wait()
+		close(bad)
+		c.Eval(int64(16 * b.N))
+		c.Count("concurrent_detections", int64(16*b.N))
+		for d := range bad {
+			if v, _ := jsonFamilyOrException(t, lib.ChainOf(mimetype.Detect(d))); v == "json" {
+				c.Violate("json-not-recognised", fw.InputKey(d, 0, "Detect/concurrent"), fmt.Sprintf("valid JSON document is reported as JSON when detected alone but was reported otherwise while 16 goroutines were detecting JSON documents; doc %s", fw.Quote(d, 100)), fw.MkInCase("concurrent", d, 0, "Detect", "verdict lost under concurrency"))
+			}
+		}
+		mimetype.SetLimit(3072)
+	case "big":
+		// documents of 5 MiB and 17 MiB examined in full (limit 0, limit > len) and cut late
+		for _, size := range []int{5 << 20, 17 << 20} {
+			var sb bytes.Buffer
+			sb.WriteString(" [")
+			for sb.Len() < size {
+				sb.WriteString(`{"k":[1,2,3],"s":"some text \u00e9"},`)
+			}
+			sb.WriteString(`{"type":"Feature"}]`)
+			d := sb.Bytes()
+			c08JudgeDoc(c, t, "big", d, []uint32{0, uint32(len(d) + 1), uint32(len(d)), uint32(len(d) - 7), 1 << 22, 3072}, false)
+			c.Count("documents_of_5_MiB_and_more", 1)
+		}
 	case "long":
 		// long documents: cut by the default limit and at sampled points
 		for i := 0; i < b.N; i++ {
@@ -356,6 +410,8 @@ func init() {
 			bs = append(bs, batches("long", 4, nl, 1800)...)
 			bs = append(bs, batches("ladder", 8, 0, 1800)...)
 			bs = append(bs, batches("dictionary", 6, 0, 1800)...)
+			bs = append(bs, batches("big", 1, 0, 1800)...)
+			bs = append(bs, batches("concurrent", 2, 30000, 1800)...)
 			return bs
 		},
 		Run: c08Run,
